@@ -74,6 +74,12 @@ func c14FailedSet(c *Check) {
 					case "lastPruned":
 						c.Ob("R14.6", "unfail@lastPruned", true, p.Pos(x.Pos()), "exception: the header store's tail moved past the height, the header no longer exists")
 					default:
+						if p.onlyCalledFrom(f, func(g *ssa.Function) bool {
+							return g.Name() == "pruneOnHeaderDelete" || g.Name() == "lastPruned"
+						}, 0) {
+							c.Ob("R14.6", "unfail@"+fnName(f), true, p.Pos(x.Pos()), "helper called only from pruneOnHeaderDelete/lastPruned (same exceptions)")
+							continue
+						}
 						c.Ob("R14.6", "unfail@"+fnName(f), false, p.Pos(x.Pos()), "heights leave the failed set only in retryFailed, pruneOnHeaderDelete and lastPruned")
 					}
 				}
@@ -102,11 +108,37 @@ func c14FailedSet(c *Check) {
 			}
 		}
 	}
+	batchFn := round
+	var helperCall *ssa.Call
+	if pruneCall == nil {
+		// the batch loop may have been extracted into a helper of the round (pruneBatch-style)
+		pruneCall, helperCall = findPruneInHelper(p, round)
+		if helperCall != nil {
+			batchFn = helperCall.Call.StaticCallee()
+			c.SawFunc(batchFn)
+		}
+	}
 	if pruneCall == nil || updCall == nil {
 		c.Ob("R14.6", "round records failures", false, p.Pos(round.Pos()), "the pruning round calls Pruner.Prune and updateCheckpoint")
 		return
 	}
 	handed := backSlice(updCall.Call.Args[len(updCall.Call.Args)-1], SliceOpt{})
+	if helperCall != nil {
+		// the failed map is built in the helper and returned: it is "handed" if the round passes the helper's result on
+		if g0, _ := resolveCallThroughLocals(updCall.Call.Args[len(updCall.Call.Args)-1]); g0 != helperCall && !handed.Vals[helperCall] {
+			c.Ob("R14.6", "round records failures", false, p.Pos(round.Pos()), "the failed set returned by the batch helper is handed to updateCheckpoint")
+			return
+		}
+		handed = &Slice{Vals: map[ssa.Value]bool{}}
+		for _, r := range returnsOf(batchFn) {
+			for _, rv := range r.Results {
+				for v := range backSlice(rv, SliceOpt{}).Vals {
+					handed.Vals[v] = true
+				}
+			}
+		}
+	}
+	round = batchFn
 	_, failS := errEdgesOfCall(round, pruneCall)
 	rec := len(failS) > 0
 	for _, s := range failS {
@@ -155,6 +187,10 @@ func c14RoundProgress(c *Check) {
 		}
 	}
 	if pruneCall == nil {
+		if _, hc := findPruneInHelper(p, round); hc != nil {
+			c14RoundProgressViaHelper(c, round, hc)
+			return
+		}
 		c.Unresolved("R14.7", "Pruner.Prune call not found in the round")
 		return
 	}
@@ -223,4 +259,87 @@ func c14RoundProgress(c *Check) {
 	res := gateWalkOpts(p, round, map[*ssa.BasicBlock]bool{outerHead: true}, nil, exit, progress)
 	c.Ob("R14.7", "next batch only after progress", len(progress) > 0 && !res.Reached, p.Pos(round.Pos()),
 		"from the end of a batch the round's loop header is reachable only across a test that depends on Prune's outcomes in this batch (success counter / last pruned header)", res.Witness...)
+}
+
+// findPruneInHelper: the Prune invoke inside a first-party function the round calls statically, and that call.
+func findPruneInHelper(p *Program, round *ssa.Function) (*ssa.Call, *ssa.Call) {
+	for _, b := range round.Blocks {
+		for _, ins := range b.Instrs {
+			g, ok := ins.(*ssa.Call)
+			if !ok || g.Call.StaticCallee() == nil || !p.FirstParty(g.Call.StaticCallee()) {
+				continue
+			}
+			h := g.Call.StaticCallee()
+			for _, hb := range h.Blocks {
+				for _, hi := range hb.Instrs {
+					if k, ok := hi.(*ssa.Call); ok && k.Call.IsInvoke() && k.Call.Method.Name() == "Prune" {
+						// the batch helper is called inside the round's loop (retryFailed, called once up front, also prunes)
+						inLoop := false
+						for _, sc := range b.Succs {
+							if p2pReach(round, sc)[b] {
+								inLoop = true
+							}
+						}
+						if inLoop {
+							return k, g
+						}
+					}
+				}
+			}
+		}
+	}
+	return nil, nil
+}
+
+// c14RoundProgressViaHelper: R14.7 when the batch loop lives in a helper: from the helper call
+// the round's loop header is reachable only across a test that depends on the helper's results.
+func c14RoundProgressViaHelper(c *Check, round *ssa.Function, hc *ssa.Call) {
+	p := c.P
+	var outerHead *ssa.BasicBlock
+	reach := p2pReach(round, hc.Block())
+	for _, b := range round.Blocks {
+		if !b.Dominates(hc.Block()) {
+			continue
+		}
+		for _, pr := range b.Preds {
+			if reach[pr] && b.Dominates(pr) {
+				outerHead = b
+			}
+		}
+	}
+	if outerHead == nil {
+		c.Ob("R14.7", "round loop", true, p.Pos(round.Pos()), "the round handles one batch only (no outer loop)")
+		return
+	}
+	progress := map[*ssa.BasicBlock]bool{}
+	for _, b := range round.Blocks {
+		if !reach[b] || b == hc.Block() && false {
+			continue
+		}
+		ifi, ok := b.Instrs[len(b.Instrs)-1].(*ssa.If)
+		if !ok {
+			continue
+		}
+		sl := backSlice(ifi.Cond, SliceOpt{PhiControl: true})
+		dep := sl.Vals[hc]
+		for v := range sl.Vals {
+			if al, ok := v.(*ssa.Alloc); ok {
+				for _, ref := range *al.Referrers() {
+					if st, ok := ref.(*ssa.Store); ok && st.Addr == ssa.Value(al) && backSlice(st.Val, SliceOpt{}).Vals[hc] {
+						dep = true
+					}
+				}
+			}
+		}
+		if dep {
+			progress[b] = true
+		}
+	}
+	// start after the helper call: successors of its block (the call's own block may end in the error test of updateCheckpoint etc.)
+	res := gateWalkFrom(p, round, hc.Block(), map[*ssa.BasicBlock]bool{outerHead: true}, nil, minusBlocks(progress, map[*ssa.BasicBlock]bool{}))
+	if progress[hc.Block()] {
+		res = GateResult{}
+	}
+	c.Ob("R14.7", "next batch only after progress", len(progress) > 0 && !res.Reached, p.Pos(round.Pos()),
+		"from the end of a batch (helper call) the round's loop header is reachable only across a test that depends on the batch helper's results", res.Witness...)
 }
